@@ -99,6 +99,24 @@ func runCasesSkel(run *Run, cases []Case, ex Executor, cl Classifier, skel map[i
 		cases = []Case{{Idx: 0, Ops: ops, Note: "replay"}}
 		skel = nil
 	}
+	// large passes (thorough tier) run in batches, so that the request lines of a million cases are never all in memory
+	// (C19's thorough tier peaked at 22 GB, C02's at 17 GB before this)
+	const batch = 10000
+	shrunk := 0
+	for a := 0; a < len(cases); a += batch {
+		b := a + batch
+		if b > len(cases) {
+			b = len(cases)
+		}
+		if !runCasesBatch(run, cases[a:b], ex, cl, skel, callNo, a, &shrunk) {
+			return
+		}
+	}
+}
+
+// runCasesBatch executes cases (a slice of the pass starting at index off), judges them and records the failures;
+// false = the driver failed.
+func runCasesBatch(run *Run, cases []Case, ex Executor, cl Classifier, skel map[int]string, callNo, off int, shrunkp *int) bool {
 	n := len(cases)
 	lines := make([][]string, n)
 	var wg sync.WaitGroup
@@ -117,14 +135,15 @@ func runCasesSkel(run *Run, cases []Case, ex Executor, cl Classifier, skel map[i
 	if err != nil {
 		fmt.Println("harness error:", err)
 		run.Failures = append(run.Failures, Failure{CaseIdx: -999, Kind: "HARNESS", Reply: err.Error()})
-		return
+		return false
 	}
-	shrunk := 0
+	shrunk := *shrunkp
+	defer func() { *shrunkp = shrunk }()
 	for i := range cases {
 		run.Evals += len(lines[i])
 		run.ValTraces++
 		if skel != nil {
-			if sk, ok := skel[i]; ok && sk != "" {
+			if sk, ok := skel[off+i]; ok && sk != "" {
 				run.Distinct[sk] = true
 			}
 		} else if len(cases[i].Ops) >= 3 {
@@ -138,7 +157,7 @@ func runCasesSkel(run *Run, cases []Case, ex Executor, cl Classifier, skel map[i
 		for _, o := range cases[i].Ops {
 			run.Hist[o.Args[0]]++
 		}
-		if i%997 == 0 {
+		if (off+i)%997 == 0 {
 			run.Sample(map[string]interface{}{"case": cases[i].Idx, "requests": headLines(lines[i], 12)})
 		}
 		li, kind := firstBad(replies[i])
@@ -181,6 +200,7 @@ func runCasesSkel(run *Run, cases []Case, ex Executor, cl Classifier, skel map[i
 		run.Failures = append(run.Failures, f)
 		_ = ops
 	}
+	return true
 }
 
 func headLines(l []string, n int) []string {
